@@ -162,7 +162,12 @@ fn main() {
         let layers = &c[100..];
         let Some(sig) = sig_of(layers) else { o.line(id, &[-3]); continue };
         let Some((_, fp, fo)) = fam.iter().find(|(s, _, _)| *s == sig) else { o.line(id, &[-4]); continue };
-        let na = NativeAccount::new(key, owner, 1, &[], sg, wr, false);
+        // state the checks must NOT depend on rides in the `present` code (the model reads it as a boolean):
+        // present = 1 + 2 * lamports class + 16 * data class
+        let code = if present { (c[32] - 1) as u64 } else { 0 };
+        let lamports: u64 = match (code / 2) % 8 { 0 => 1, 1 => 0, 2 => u64::MAX, 3 => 890_880, 4 => 889_999, _ => 1_000_000_007 };
+        let data: Vec<u8> = match (code / 16) % 4 { 0 => vec![], 1 => vec![0; 8], 2 => (0..100u8).collect(), _ => vec![255; 9] };
+        let na = NativeAccount::new(key, owner, lamports, &data, sg, wr, false);
         let accs: Vec<AccountInfo> = if present { vec![na.info()] } else { vec![] };
         let prog_static: &'static Pubkey = Box::leak(Box::new(Pubkey::new_from_array(prog)));
         let mut ctx = Context::new(prog_static);
